@@ -14,10 +14,10 @@
    from_words_total: non-empty word list, total oracle, sane bounds => Ok or UErr, for every
    constructor-argument combination (bounds may be inf / nan / huge ints).
 
-   as_words_crash_kinds / as_words_total: the same for as_words; the TypeError sites are ill-typed
-   values (a list for a scalar type, a number for a list type, a nested list element) AND a None /
-   Auto list element when value_min or value_max is set (_check_value compares before the None test:
-   None >= bound) - the latter is reachable with a legitimate value, see as_words_none_element_crash. *)
+   as_words_crash_kinds / as_words_total: the same for as_words; the only TypeError sites are ill-typed
+   values (a list for a scalar type, a number for a list type, a nested list element).  A None / Auto
+   list element is written whatever the bounds (the element's bound check follows the None / Auto
+   tests since repair 2de8c99; before it, None >= bound raised TypeError), see as_words_none_element_ok. *)
 From Coq Require Import List Ascii String Bool Arith ZArith Lia.
 From Phil Require Import Base Conv ConvProofs.
 Import ListNotations.
@@ -245,18 +245,14 @@ End FromWords.
 
 (* ================================================================ as_words *)
 (* the Python value has the type the converter writes: anything for bool; None / Auto / a number for
-   int and float; None / Auto / a list for ints and floats whose elements are numbers, or None / Auto
-   when the converter has no bounds (with a bound, _check_value compares the element first) *)
-Definition no_bounds (c:lconv) : bool :=
-  match lvmin c, lvmax c with None, None => true | _, _ => false end.
-Definition elem_typed (c:lconv) (e:pyv) : bool :=
-  match e with PNum _ => true | PNone | PAuto => no_bounds c | PList _ => false end.
+   int and float; None / Auto / a list of numbers, None and Auto for ints and floats *)
+Definition elem_typed (e:pyv) : bool := match e with PList _ => false | _ => true end.
 Definition typed (t:cty) (v:pyv) : bool :=
   match t with
   | CBool => true
   | CInt _ | CFloat _ => match v with PList _ => false | _ => true end
-  | CInts c | CFloats c =>
-      match v with PNum _ => false | PList l => forallb (elem_typed c) l | _ => true end
+  | CInts _ | CFloats _ =>
+      match v with PNum _ => false | PList l => forallb elem_typed l | _ => true end
   end.
 Definition pyv_sane (v:pyv) : bool := match v with PNum n => num_sane n | _ => true end.
 Definition value_sane (t:cty) (v:pyv) : bool :=
@@ -326,28 +322,23 @@ Section AsWords.
 
   Lemma elem_as_word_crash isint c e k :
     elem_as_word fmt10g isint c e = Crash k ->
-    (k = c_type /\ elem_typed c e = false) \/
+    (k = c_type /\ elem_typed e = false) \/
     (k = c_oracle /\ exists f, fmt10g f = None) \/
     (k = c_b64 /\ isint = true /\ (pyv_sane e = false \/ onum_sane (lvmin c) = false \/ onum_sane (lvmax c) = false)).
   Proof.
-    unfold elem_as_word, check_value_py, elem_typed, no_bounds. intro H.
-    apply bind_crash in H as [H|(? & _ & H)].
-    - destruct e as [| |n|l].
-      + destruct (lvmin c), (lvmax c); try discriminate; injection H as <-; auto.
-      + destruct (lvmin c), (lvmax c); try discriminate; injection H as <-; auto.
+    unfold elem_as_word, check_value_py, elem_typed. intro H. destruct e as [| |n|l]; cbv iota beta in H.
+    - revert H. destruct (none_el c); discriminate.
+    - revert H. destruct (auto_el c); discriminate.
+    - apply bind_crash in H. destruct H as [H|(u & _ & H)].
       + apply check_value_crash in H as [[_ E]|(-> & -> & E)]; [discriminate|]. right; right. cbn. auto.
-      + destruct (lvmin c), (lvmax c); try discriminate; injection H as <-; auto.
-    - destruct e as [| |n|l].
-      + revert H. destruct (none_el c); discriminate.
-      + revert H. destruct (auto_el c); discriminate.
-      + apply bind_crash in H as [H|(? & _ & H)]; [|cbn in H; discriminate].
+      + apply bind_crash in H. destruct H as [H|(s & _ & H)]; [|discriminate H].
         apply value_as_str_crash in H as [H|(-> & -> & E)]; auto. right; right. cbn. auto.
-      + injection H as <-. auto.
+    - injection H as <-. auto.
   Qed.
 
   Lemma numbers_conv_as_words_crash isint c v k :
     numbers_conv_as_words fmt10g isint c v = Crash k ->
-    (k = c_type /\ match v with PNum _ => True | PList l => forallb (elem_typed c) l = false | _ => False end) \/
+    (k = c_type /\ match v with PNum _ => True | PList l => forallb elem_typed l = false | _ => False end) \/
     (k = c_oracle /\ exists f, fmt10g f = None) \/
     (k = c_b64 /\ isint = true /\
        (onum_sane (lvmin c) && onum_sane (lvmax c) && match v with PList l => forallb pyv_sane l | _ => true end) = false).
@@ -400,17 +391,18 @@ Section AsWords.
     - congruence.
   Qed.
 
-  (* the reachable TypeError: a legitimate value ([1, None] with allow_none_elements=True) for an
-     ints converter that has a bound.  numbers_converters_base.as_words calls _check_value(value)
-     before testing "value is None": None >= 0 raises TypeError. *)
-  Example as_words_none_element_crash :
-    as_words fmt10g (CInts (mklconv None None (Some (NInt 0)) None true false)) (PList [PNum (NInt 1); PNone])
-    = Crash c_type.
-  Proof. reflexivity. Qed.
-  (* without bounds the same value is written *)
+  (* a legitimate value ([1, None] with allow_none_elements=True, [Auto, 2.5] with allow_auto_elements=True)
+     is written also when the converter has a bound (former TypeError, repaired in 2de8c99) *)
   Example as_words_none_element_ok :
-    as_words fmt10g (CInts (mklconv None None None None true false)) (PList [PNum (NInt 1); PNone])
+    as_words fmt10g (CInts (mklconv None None (Some (NInt 0)) None true false)) (PList [PNum (NInt 1); PNone])
     = Ok [uw (s_ "1"); uw (s_ "None")].
+  Proof. reflexivity. Qed.
+  Example as_words_none_element_typed :
+    typed (CInts (mklconv None None (Some (NInt 0)) None true false)) (PList [PNum (NInt 1); PNone; PAuto]) = true.
+  Proof. reflexivity. Qed.
+  Example as_words_auto_element_refused :
+    as_words fmt10g (CInts (mklconv None None (Some (NInt 0)) None true false)) (PList [PAuto])
+    = UErr (s_ "ElementAuto") [] 0.
   Proof. reflexivity. Qed.
 End AsWords.
 
